@@ -105,12 +105,17 @@ func initNewMultiColumnReader(segKey string, colFDs map[string]*os.File,
 	var err error
 	// todo blockSummaries don't need to be passed, we could just pick from this
 	// below function
-	if writer.IsSegKeyUnrotated(segKey) {
+	isUnrotated := writer.IsSegKeyUnrotated(segKey)
+	if isUnrotated {
 		allBmi, err = writer.GetBlockSearchInfoForKey(segKey)
 		if err != nil {
-			return nil, fmt.Errorf("InitSharedMultiColumnReaders: failed to get allBmi for unrotated segKey %s; err=%v", segKey, err)
+			// The segment got rotated between the check above and this lookup. Rotation
+			// publishes the rotated metadata before it drops the unrotated info, so the
+			// segment can be read as a rotated one instead of failing the read.
+			isUnrotated = false
 		}
-	} else {
+	}
+	if !isUnrotated {
 		allBmi, _, err = segmetadata.GetSearchInfoAndSummary(segKey)
 		if err != nil {
 			return nil, fmt.Errorf("InitSharedMultiColumnReaders: failed to get allBmi segKey: %s. Error: %+v", segKey, err)
